@@ -807,6 +807,101 @@ func ordOverload(w *World, r *EngineResult) {
 	}
 	r.Stats["overload_sites"] = n
 	r.floor("overload_sites", 1)
+
+	// ORD-overload (edges last): within one configuration file the class's own members are
+	// defined before its `extends` edges are recorded. The member definers decide "new method
+	// or overload of an existing one" with a lookup that walks the inheritance table; if the
+	// edges of the class at hand are already there, a method the class overrides is found in
+	// the parent (when the parent's file was loaded earlier) and lands in the parent's
+	// overload list — the result then depends on the file names even without splitting a
+	// class. Rule: in a function of the loader that updates the inheritance table, no call
+	// that can reach a walker of that table is reachable from the update.
+	nE := 0
+	for _, fn := range w.Funcs {
+		if pkgShort(fn) != "builtin" {
+			continue
+		}
+		var updates []ssa.Instruction
+		for _, b := range fn.Blocks {
+			for _, ins := range b.Instrs {
+				if mu, ok := ins.(*ssa.MapUpdate); ok {
+					if g := rootGlobal(mu.Map); g != nil && g.Name() == "ClassInheritanceMap" {
+						updates = append(updates, ins)
+					}
+				}
+				// … or through a helper of the loader that records the edges
+				if c, ok := ins.(*ssa.Call); ok {
+					if cal := c.Call.StaticCallee(); cal != nil && cal != fn && pkgShort(cal) == "builtin" && w.Effects().Of(cal).mapUpdates["base.ClassInheritanceMap"] {
+						if ok2, _ := reaches(cal); !ok2 {
+							updates = append(updates, ins)
+						}
+					}
+				}
+			}
+		}
+		if len(updates) == 0 {
+			continue
+		}
+		nE++
+		construct := "inheritance edges recorded after the members are defined"
+		bad := ""
+		for _, u := range updates {
+			// blocks reachable from the update (its own block from the update on)
+			seen := map[*ssa.BasicBlock]bool{}
+			var after []ssa.Instruction
+			past := false
+			for _, ins := range u.Block().Instrs {
+				if past {
+					after = append(after, ins)
+				}
+				if ins == u {
+					past = true
+				}
+			}
+			// … within one iteration of the outermost loop around the update (one
+			// configuration file): the header of that loop is not crossed
+			var outer *natLoop
+			for _, l := range findLoops(fn) {
+				if l.body[u.Block()] && (outer == nil || len(l.body) > len(outer.body)) {
+					outer = l
+				}
+			}
+			var walk func(b *ssa.BasicBlock)
+			walk = func(b *ssa.BasicBlock) {
+				if seen[b] || (outer != nil && b == outer.head) {
+					return
+				}
+				seen[b] = true
+				after = append(after, b.Instrs...)
+				for _, s2 := range b.Succs {
+					walk(s2)
+				}
+			}
+			for _, s2 := range u.Block().Succs {
+				walk(s2)
+			}
+			for _, ins := range after {
+				c, ok := ins.(*ssa.Call)
+				if !ok {
+					continue
+				}
+				cal := c.Call.StaticCallee()
+				if cal == nil || cal.Pkg == nil || !inModule(cal.Pkg.Pkg.Path()) {
+					continue
+				}
+				if ok, via := reaches(cal); ok {
+					bad = fmt.Sprintf("%s at %s (walks the table through %s) can run after the update at %s", fnKey(cal), w.pos(instrPos(c)), via, w.pos(instrPos(u)))
+				}
+			}
+		}
+		if bad == "" {
+			r.holds("ORD-overload", fnKey(fn), construct, "nothing that walks the inheritance table runs after this function has recorded the edges of the file's class", w.pos(fn.Pos()))
+		} else {
+			r.violated("ORD-overload", fnKey(fn), construct, "the member definers look existing methods up through the inheritance table, and here they can run when the `extends` edges of the class at hand are already recorded: "+bad+" — an overriding method is filed as an overload of the parent's method if the parent's file was loaded first, so renaming configuration files changes the result", w.pos(fn.Pos()))
+		}
+	}
+	r.Stats["inheritance_edge_writers_in_loader"] = nE
+	r.floor("inheritance_edge_writers_in_loader", 1)
 }
 
 // ---- ORD-row (C22) ----
@@ -1165,6 +1260,87 @@ func ordSpec(w *World, r *EngineResult) {
 	}
 	r.Stats["speculative_roots"] = n
 	r.floor("speculative_roots", 1)
+
+	// ORD-log: the logs are append-only *per event*: an append is not made to depend on
+	// whether an equal record is already there. The records carry file and row but no column,
+	// so "equal" identifies two call sites that share a row (`add(square(a), square(b))`), and
+	// a de-duplicating guard drops the second — one caller entry per call site no longer holds.
+	nL := 0
+	for _, fn := range w.Funcs {
+		ord := map[string]int{}
+		for _, b := range fn.Blocks {
+			for _, ins := range b.Instrs {
+				var g *ssa.Global
+				switch x := ins.(type) {
+				case *ssa.MapUpdate:
+					g = rootGlobal(x.Map)
+					if c, ok := x.Value.(*ssa.Call); !ok || !isBuiltinNamed(c, "append") {
+						g = nil
+					}
+				case *ssa.Store:
+					if c, ok := x.Val.(*ssa.Call); ok && isBuiltinNamed(c, "append") {
+						g = rootGlobal(x.Addr)
+					}
+				}
+				if g == nil || !logs[globalName(g)] {
+					continue
+				}
+				nL++
+				name := globalName(g)
+				ord[name]++
+				construct := fmt.Sprintf("append to the log %s", name)
+				if ord[name] > 1 {
+					construct = fmt.Sprintf("%s#%d", construct, ord[name])
+				}
+				guard := ""
+				for cur := b; cur != nil && cur.Idom() != nil; cur = cur.Idom() {
+					d := cur.Idom()
+					iff, ok := d.Instrs[len(d.Instrs)-1].(*ssa.If)
+					if !ok || len(cur.Preds) != 1 || cur.Preds[0] != d {
+						continue
+					}
+					cond := iff.Cond
+					if u, ok := cond.(*ssa.UnOp); ok {
+						cond = u.X
+					}
+					if c, ok := cond.(*ssa.Call); ok {
+						if cal := c.Call.StaticCallee(); cal != nil && strings.HasPrefix(cal.String(), "slices.Contains") && len(c.Call.Args) > 0 {
+							if g2 := rootGlobalThroughLookup(c.Call.Args[0]); g2 == g {
+								guard = w.pos(instrPos(iff))
+							}
+						}
+					}
+				}
+				if guard == "" {
+					r.holds("ORD-log", fnKey(fn), construct, "the record is appended whenever the event happens, whatever the log already holds", w.pos(instrPos(ins)))
+				} else {
+					r.violated("ORD-log", fnKey(fn), construct, "the append depends on a membership test of the log itself (at "+guard+"): records carry file and row but no column, so two events on one row compare equal and the second is dropped — the list no longer has one entry per call site", w.pos(instrPos(ins)))
+				}
+			}
+		}
+	}
+	r.Stats["log_appends"] = nL
+	r.floor("log_appends", 3)
+}
+
+func isBuiltinNamed(c *ssa.Call, name string) bool {
+	bi, ok := c.Call.Value.(*ssa.Builtin)
+	return ok && bi.Name() == name
+}
+
+// rootGlobalThroughLookup: like rootGlobal, also through a map lookup (`log[key]`).
+func rootGlobalThroughLookup(v ssa.Value) *ssa.Global {
+	for i := 0; i < 6; i++ {
+		switch x := v.(type) {
+		case *ssa.Lookup:
+			v = x.X
+		case *ssa.Extract:
+			v = x.Tuple
+		default:
+			return rootGlobal(v)
+		}
+	}
+	return nil
 }
 
 func specGuarded(w *World, fn *ssa.Function, prm *ssa.Parameter, logsHit []string) bool {
@@ -1556,9 +1732,9 @@ func ordFlat(w *World, r *EngineResult) {
 	// consumers: a membership test on the short-name registry that redirects a class to the
 	// Builtin frame (the constant "Builtin" is assigned on its true edge) is only legitimate for
 	// an unqualified name: the same condition must test that the frame/namespace at hand is "".
-	nUse := 0
+	nUse, nRead := 0, 0
 	for _, fn := range w.Funcs {
-		ord := 0
+		ord, ordRead := 0, 0
 		for _, b := range fn.Blocks {
 			for _, ins := range b.Instrs {
 				call, ok := ins.(*ssa.Call)
@@ -1575,6 +1751,22 @@ func ordFlat(w *World, r *EngineResult) {
 				}
 				iff, ok := b.Instrs[len(b.Instrs)-1].(*ssa.If)
 				if !ok || iff.Cond != ssa.Value(call) {
+					// the answer is used as a value (returned, stored): a read without any
+					// conjoined test
+					nRead++
+					ordRead++
+					c2 := fmt.Sprintf("membership test on the short-name registry#%d", ordRead)
+					tokenText := false
+					if nc, ok := call.Call.Args[1].(*ssa.Call); ok {
+						if cal := nc.Call.StaticCallee(); cal != nil && cal.Name() == "ToString" && cal.Signature.Recv() != nil && isPtrToNamed(cal.Signature.Recv().Type(), modulePath+"/base", "T") {
+							tokenText = true
+						}
+					}
+					if tokenText {
+						r.holds("ORD-flat-use", fnKey(fn), c2, "the name tested is the text of a value as written (ToString()): a qualified name never equals a short name", w.pos(instrPos(call)))
+					} else {
+						r.violated("ORD-flat-use", fnKey(fn), c2, "a bare class name (already separated from its namespace) is looked up in the registry of short names of configured classes of every frame, and the answer is used as it is: a configured class of another frame makes a same-named user class count as configured", w.pos(instrPos(call)))
+					}
 					continue
 				}
 				// does the true edge lead (directly) to the constant "Builtin" being chosen?
@@ -1608,12 +1800,6 @@ func ordFlat(w *World, r *EngineResult) {
 						}
 					}
 				}
-				if !redirects {
-					continue
-				}
-				nUse++
-				ord++
-				construct := fmt.Sprintf("redirect to the Builtin frame#%d", ord)
 				pos := w.pos(instrPos(call))
 				// an empty-string comparison in the same && chain: a dominating true edge of  x == ""  or the test in a successor
 				emptyTest := func(v ssa.Value) bool {
@@ -1637,6 +1823,33 @@ func ordFlat(w *World, r *EngineResult) {
 				if ti, ok := tb.Instrs[len(tb.Instrs)-1].(*ssa.If); ok && emptyTest(ti.Cond) && len(tb.Instrs) <= 3 {
 					guarded = true
 				}
+				if !redirects {
+					// any other answer drawn from the short-name registry ("is this class
+					// configured / defined?") is an answer about every frame at once. It is
+					// legitimate for the text of an identifier token as written (a qualified
+					// name never equals a short name) or next to the same emptiness test.
+					nRead++
+					ordRead++
+					c2 := fmt.Sprintf("membership test on the short-name registry#%d", ordRead)
+					tokenText := false
+					if nc, ok := call.Call.Args[1].(*ssa.Call); ok {
+						if cal := nc.Call.StaticCallee(); cal != nil && cal.Name() == "ToString" && cal.Signature.Recv() != nil && isPtrToNamed(cal.Signature.Recv().Type(), modulePath+"/base", "T") {
+							tokenText = true
+						}
+					}
+					switch {
+					case tokenText:
+						r.holds("ORD-flat-use", fnKey(fn), c2, "the name tested is the text of a value as written (ToString()): a qualified name never equals a short name", pos)
+					case guarded:
+						r.holds("ORD-flat-use", fnKey(fn), c2, "the membership test is conjoined with a test that the frame or namespace at hand is empty", pos)
+					default:
+						r.violated("ORD-flat-use", fnKey(fn), c2, "a bare class name (already separated from its namespace) is looked up in the registry of short names of configured classes of every frame, without testing that it was written unqualified: a configured class of another frame makes a same-named user class count as configured", pos)
+					}
+					continue
+				}
+				nUse++
+				ord++
+				construct := fmt.Sprintf("redirect to the Builtin frame#%d", ord)
 				if guarded {
 					r.holds("ORD-flat-use", fnKey(fn), construct, "the membership test is conjoined with a test that the frame or namespace at hand is empty: only unqualified names are redirected", pos)
 				} else {
@@ -1646,6 +1859,7 @@ func ordFlat(w *World, r *EngineResult) {
 		}
 	}
 	r.Stats["builtin_frame_redirects"] = nUse
+	r.Stats["short_name_registry_reads"] = nRead
 	r.floor("builtin_frame_redirects", 1)
 }
 
